@@ -133,12 +133,27 @@ Final(k, f, st, len) ==
     ELSE IF st.pfx /\ st.nint = 0 /\ st.nfrac = 0 THEN [v |-> "U", why |-> "base prefix followed by no digits"]
     ELSE IF st.nint = 0 /\ st.nfrac = 0 /\ (st.msign # 0 \/ st.sepany) /\ ~f.required_mantissa_digits
          THEN [v |-> "U", why |-> "no digits at all and digits not required"]
+    (* ---- zones where the documentation contradicts itself (format_builder.rs): never judged ---- *)
+    (* required_integer_digits: the setter table lists "1." as invalid, its doctest parses it *)
+    ELSE IF isF /\ f.required_integer_digits /\ st.nint > 0 /\ st.hasPoint /\ st.nfrac = 0 /\ ~f.required_fraction_digits
+         THEN [v |-> "U", why |-> "docs disagree on '1.' under required_integer_digits"]
+    (* no_exponent_without_fraction: the getter table rejects "1.e3", setter table and doctest accept it; *)
+    (* the tables accept "1.1e", which the (default) required exponent digits reject                      *)
+    ELSE IF isF /\ f.no_exponent_without_fraction /\ st.hasExp /\ st.hasPoint /\ st.nfrac = 0
+         THEN [v |-> "U", why |-> "docs disagree on '1.e3' under no_exponent_without_fraction"]
+    ELSE IF isF /\ (f.no_exponent_without_fraction \/ (f.required_integer_digits /\ f.required_fraction_digits))
+            /\ st.hasExp /\ st.nexp = 0 /\ st.esign = 0 /\ f.required_exponent_digits /\ st.nfrac > 0
+         THEN [v |-> "U", why |-> "tables accept '1.1e' although exponent digits are required"]
     ELSE IF isF /\ f.required_mantissa_digits /\ st.nint = 0 /\ st.nfrac = 0
          THEN [v |-> "R", why |-> "mantissa digits required"]
     ELSE IF ~isF /\ st.nint = 0 THEN [v |-> "R", why |-> "integer digits required"]
     ELSE IF isF /\ f.required_integer_digits /\ st.nint = 0 THEN [v |-> "R", why |-> "integer digits required"]
     ELSE IF isF /\ f.required_fraction_digits /\ st.hasPoint /\ st.nfrac = 0
          THEN [v |-> "R", why |-> "fraction digits required"]
+    (* leading zeros right after a base prefix ("0x00"): the flag docs speak of the integral component, *)
+    (* the prefix docs do not mention the interaction -- not judged                                      *)
+    ELSE IF st.pfx /\ st.lead0 /\ st.nint = 2 /\ (IF isF THEN f.no_float_leading_zeros ELSE f.no_integer_leading_zeros)
+         THEN [v |-> "U", why |-> "leading zeros after a base prefix"]
     ELSE IF isF /\ f.no_float_leading_zeros /\ st.lead0 /\ st.nint = 2
          THEN [v |-> "R", why |-> "leading zeros forbidden"]
     ELSE IF ~isF /\ f.no_integer_leading_zeros /\ st.lead0 /\ st.nint = 2
@@ -149,7 +164,7 @@ Final(k, f, st, len) ==
          THEN [v |-> "R", why |-> "exponent sign required"]
     ELSE IF isF /\ st.hasExp /\ f.no_positive_exponent_sign /\ st.esign = 1
          THEN [v |-> "R", why |-> "positive exponent sign forbidden"]
-    ELSE IF isF /\ st.hasExp /\ f.no_exponent_without_fraction /\ ~(st.hasPoint /\ st.nfrac > 0)
+    ELSE IF isF /\ st.hasExp /\ f.no_exponent_without_fraction /\ ~st.hasPoint
          THEN [v |-> "R", why |-> "exponent without fraction"]
     ELSE IF isF /\ ~st.hasExp /\ f.required_exponent_notation
          THEN [v |-> "R", why |-> "exponent notation required"]
